@@ -432,7 +432,11 @@ Definition dobs_ok (m o : dobs) : bool :=
   | _, _ => false
   end.
 
+(* disk.Contains for an entry that is not in the local index: the proxy is consulted only when
+   size <= max_proxy_blob_size, and its answer accepted when foundSize <= max_proxy_blob_size and the
+   sizes do not mismatch *)
 Definition disk_has_expect (maxproxy sz : Z) (h : phas) : phas :=
+  if sz >? maxproxy then HasNo else
   match h with
   | HasYes f => if (f <=? maxproxy) && negb (mismatch sz f) then HasYes f else HasNo
   | x => x
@@ -472,6 +476,9 @@ Inductive pcase :=
 (* UploadFile over HTTP: LogicalSize, SizeOnDisk, replies to HEAD and PUT; observed requests
    (false = HEAD, true = PUT with its Content-Length) and number of Close calls on the reader *)
 | CHttpUp (logical sod : Z) (head put : hreply) (reqs : list (bool * Z)) (closes : Z)
+(* UploadFile AC/RAW over gRPC: LogicalSize, SizeOnDisk (= bytes the reader has), proto.Unmarshal succeeds,
+   the backend accepts; observed: an UpdateActionResult arrived, with this digest size *)
+| CGrpcAcUp (logical sod : Z) (parses ok : bool) (updated : bool) (dsize : Z)
 (* the upload queue: workers, capacity, events; observed: items refused, items uploaded (in order
    of their start), items whose reader was closed exactly once = all *)
 | CQueue (workers cap : Z) (evs : list qev) (dropped started : list nat) (nput : nat) (all_closed_once : bool).
@@ -502,6 +509,11 @@ Definition proxy_case_ok (c : pcase) : bool :=
   | CHttpUp logical sod head put reqs closes =>
       let tr := http_upload logical sod (mkHUp false head false put) in
       pair_list_eqb (http_reqs tr) reqs && (closes =? closes_of_file tr)
+  | CGrpcAcUp logical sod parses ok updated dsize =>
+      match grpc_upload_ac logical sod sod false parses ok with
+      | AUUpdate l _ => updated && (dsize =? l)
+      | _ => negb updated
+      end
   | CQueue w cap evs dropped started nput ok =>
       let s := qrun (mkQC w cap) evs in
       nat_list_eqb (q_dropped s) dropped && nat_list_eqb (q_started s) started &&
